@@ -136,6 +136,11 @@ func (tx *Transaction) Commit(ctx context.Context, scope *ReferenceScope, expr p
 	tx.operationMutex.Lock()
 	defer tx.operationMutex.Unlock()
 
+	// The encoders look at the context once per 16 records: a table without records would be written after a cancellation.
+	if ctx.Err() != nil {
+		return ConvertContextError(ctx.Err())
+	}
+
 	createdFiles, updatedFiles := tx.UncommittedViews.UncommittedFiles()
 
 	createFileInfo := make([]*FileInfo, 0, len(createdFiles))
